@@ -120,4 +120,4 @@ def classify(part, case, v):
     return None
 
 
-PARTS = [Part("eye", e_case, s_case(), quick=120, thorough=600, shards=16, quick_shards=8, shrink=False, rule="see RULE")]
+PARTS = [Part("eye", e_case, s_case(), quick=120, thorough=3600, shards=16, quick_shards=8, shrink=False, rule="see RULE")]
